@@ -206,6 +206,8 @@ class World:
                 self.e.to_controller(DatasetPublished(origin=self.w, ds=DatasetId(f"t{i}", "0"), transmit_idx=None))
         elif act == "Tick":
             Clock.now += (GRACE_MS + 1) * 1_000_000
+        elif act == "Age":
+            Clock.now += 60 * 1_000_000_000
         elif act == "Drop":
             e, f = last[1], last[2]
             self.net.flight[ADDR[e]].remove(self._find(e, f))
@@ -247,7 +249,7 @@ class World:
             out["sidx"][e] = sender.idx
             out["inflight"][e] = {i: [r.remaining, r.at < now - sender.resend_grace] for i, r in sender.inflight.items()}
             out["net"][e] = {f"{k[0]}:{k[1]}": n for k, n in sorted(self.bag(e).items())}
-            out["acked"][e] = sorted(s.idx for s in lst.acked)
+            out["acked"][e] = sorted(s.idx for s in list(lst.acked))
             out["delivered"][e] = list(self.delivered[e])
         return out
 
@@ -327,8 +329,11 @@ def classify_shapes(shapes: list[list[str]]) -> list[dict]:
             for seen in (False, True):
                 addr = f"tcp://l{k}{int(seen)}:1"
                 lst = C.Listener(addr)
+                net.flight["tcp://peer:9"] = []
                 if seen and shape and shape[0] == "syn":
-                    lst.acked.add(Syn(100 + k, "tcp://peer:9"))
+                    # make the Syn a seen one the way a sender would: a well-formed message with that Syn was received before
+                    net.inbox[addr].append((ser_message(Syn(100 + k, "tcp://peer:9")), ser_message(msg)))
+                    lst._recv_one(0)
                 frames = tuple(part[p](k) for p in shape)
                 net.inbox[addr].append(frames)
                 net.flight["tcp://peer:9"] = []
